@@ -38,13 +38,16 @@ KINDS = ["first-step", "chain", "immigration-death", "sir-final-size"]
 
 def plan(tier):
     q = tier == "quick"
-    return [{"lane": "main", "n": 16 if q else 64, "timeout": 1500 if q else 3400, "min_per_shard": 1, "max_shards": 64}]
+    return [{"lane": "main", "n": 16 if q else 64, "timeout": 1500 if q else 3400, "min_per_shard": 1, "max_shards": 64},
+            # the same laws through solve_stochast(..., parallel=True) (dask bag; every run draws from its own generator): fewer runs per
+            # configuration, plus the clause that no two runs replay the same path.  Optional: inconclusive without dask
+            {"lane": "parallel", "n": 4 if q else 16, "timeout": 1500 if q else 3400, "min_per_shard": 1, "max_shards": 16, "optional": True}]
 
 
 def floors(tier):
     return {"nontrivial": 8, "counter:gridded_configurations": 2, "counter:raw_configurations": 6, "counter:cells_judged": 80, "counter:runs": 200000, "counter:events_simulated": 1000000,
             "class:first-step": 2, "class:chain": 2, "class:immigration-death": 2, "class:sir-final-size": 2,
-            "class:int-number-types": 4, "class:float-number-types": 4}
+            "class:int-number-types": 4, "class:float-number-types": 4}   # (the optional parallel lane has no floors of its own)
 
 
 def region(n, p, alpha=ALPHA_CELL):
@@ -93,8 +96,14 @@ def sir_final_size(s0, i0, beta, gamma, N):
 
 
 def run_case(rng, idx, tier, lane, ctx):
-    kind = KINDS[idx % len(KINDS)]
-    n_runs = 20000 if tier == "quick" else 50000
+    par = lane == "parallel"
+    kind = KINDS[idx % len(KINDS)] if not par else ["chain", "immigration-death", "sir-final-size", "chain"][idx % 4]
+    n_runs = (20000 if tier == "quick" else 50000) if not par else (3000 if tier == "quick" else 8000)
+    if par:
+        try:
+            import dask.bag  # noqa: F401
+        except Exception:
+            return {"status": "inconclusive", "reason": "dask not importable (parallel lane)"}
     seed = np_seed(rng)
     counters = {"cells_judged": 0, "runs": 0, "events_simulated": 0}
     wit = []
@@ -157,21 +166,34 @@ def run_case(rng, idx, tier, lane, ctx):
     # gridded form of the call (t = [0, T/2, T] resp. [0, far past extinction]) instead of the raw path
     gridded = kind != "first-step" and (idx // len(KINDS)) % 2 == 1
     cfg["read_from"] = "gridded output" if gridded else "raw path"
+    cfg["parallel"] = par
     try:
         m = S.build_sim(spec, theta, x0)
         np.random.seed(seed)
         with contextlib.redirect_stdout(io.StringIO()):
             if gridded:
                 tg = np.array([0.0, 0.5 * horizon, horizon]) if kind != "sir-final-size" else np.array([0.0, 200.0, 400.0])
-                Xg, Jg, _tg = m.solve_stochast(tg, n_runs, exact=True, full_output=True)
+                Xg, Jg, _tg = m.solve_stochast(tg, n_runs, exact=True, full_output=True, parallel=par)
                 # present the last gridded row as a one-point "path" so that the binning below is shared
                 Xs = [np.vstack([np.asarray(X, dtype=float)[0], np.asarray(X, dtype=float)[-1]]) for X in Xg]
                 Ts = [np.array([0.0, float(tg[-1])]) for _ in Xg]
                 Js = Jg
                 horizon_read = float(tg[-1])
             else:
-                Xs, Js, Ts = m.solve_stochast(horizon, n_runs, exact=True, full_output=True)
+                Xs, Js, Ts = m.solve_stochast(horizon, n_runs, exact=True, full_output=True, parallel=par)
                 horizon_read = horizon
+                if par:
+                    # independent runs never replay a path: two runs with >= 2 events and identical event times have probability 0
+                    seen = {}
+                    for T in Ts:
+                        T = np.asarray(T, dtype=float)
+                        if len(T) >= 3:
+                            seen[T.tobytes()] = seen.get(T.tobytes(), 0) + 1
+                    counters["parallel_paths_compared"] = sum(seen.values())
+                    dup = sum(v - 1 for v in seen.values() if v > 1)
+                    if dup:
+                        wit.append({"what": "parallel runs replay identical paths (the runs do not draw from independent streams)",
+                                    "runs": n_runs, "distinct_paths": len(seen), "repeated": dup, "config": cfg})
     except Exception as e:
         return {"status": "violated", "sample": cfg, "counters": counters, "classes": [kind],
                 "witnesses": [{"what": "exact simulation raised", "error": short_exc(e), "tb": tb_tail(e)}]}
@@ -235,7 +257,7 @@ def run_case(rng, idx, tier, lane, ctx):
     cfg["cells"] = table[:14]
     cfg["min_detectable_deviation"] = round(half, 5)
     res = {"status": "violated" if wit else "held", "nontrivial": big >= 3, "key": canon_hash([kind, cfg.get("seed"), theta, x0]),
-           "classes": [kind, "int-number-types" if ints else "float-number-types"], "counters": counters, "sample": cfg, "maxima": {"max_region_halfwidth": half}}
+           "classes": [kind, "int-number-types" if ints else "float-number-types"] + (["parallel=True"] if par else []), "counters": counters, "sample": cfg, "maxima": {"max_region_halfwidth": half}}
     if wit:
         res["witnesses"] = wit[:5]
     return res
